@@ -606,3 +606,150 @@ Definition ZOps : NumOps Z := {|
   n_log1p := fun z => z; n_expm1 := fun z => z; n_sqrt := Z.sqrt; n_lgamma := fun z => z; n_pi := 3%Z;
   n_leb := Z.leb; n_ltb := Z.ltb; n_eqb := Z.eqb; n_ofZ := fun z => z |}.
 Definition zt (s : shape) (l : list Z) : tensor Z := unflatten s l.
+
+(* ---------- merge_chains constructs whenever the chain does, with the same declared shapes; hence the
+   statement about [den] transfers to [run] for ALL inputs ---------- *)
+Section MergeSig.
+  Context {A : Type} (O : NumOps A).
+  Notation bij := (bij A).
+  Notation tens := (tensor A).
+
+  Lemma mapr_app {X Y} (f : X -> res Y) l1 l2 :
+    mapr f (l1 ++ l2) = do r1 <- mapr f l1; do r2 <- mapr f l2; Ok (r1 ++ r2).
+  Proof.
+    induction l1 as [|a l1 IH]; cbn [app mapr bind].
+    - destruct (mapr f l2); reflexivity.
+    - change (mapr f (a :: l1 ++ l2)) with (do b <- f a; do r <- mapr f (l1 ++ l2); Ok (b :: r)).
+      change (mapr f (a :: l1)) with (do b <- f a; do r <- mapr f l1; Ok (b :: r)).
+      destruct (f a); cbn [bind]; [|reflexivity]. rewrite IH.
+      destruct (mapr f l1); cbn [bind]; [|reflexivity]. destruct (mapr f l2); reflexivity.
+  Qed.
+  Lemma somes_app {X} (l1 l2 : list (option X)) : somes (l1 ++ l2) = somes l1 ++ somes l2.
+  Proof. induction l1 as [|[a|] l1 IH]; cbn; congruence. Qed.
+
+  Lemma merge_set (l l' : list (option shape)) cs : l' <> [] ->
+    (forall v, In v (somes l') <-> In v (somes l)) -> merge_cond_shapes l = Ok cs -> merge_cond_shapes l' = Ok cs.
+  Proof.
+    intros Hne Hset. unfold merge_cond_shapes. destruct l as [|o l0]; [discriminate|].
+    destruct l' as [|o' l0']; [congruence|].
+    destruct (somes (o :: l0)) as [|s0 r] eqn:Es.
+    - intros [= <-]. destruct (somes (o' :: l0')) as [|s1 r1] eqn:Es'; [reflexivity|].
+      exfalso. apply (proj1 (Hset s1)). now left.
+    - destruct (forallb (shape_eqb s0) r) eqn:Ef; [|discriminate]. intros [= <-].
+      rewrite forallb_forall in Ef.
+      assert (G : forall v, In v (s0 :: r) -> v = s0).
+      { intros v [->|Hv]; [reflexivity|]. apply Ef, shape_eqb_eq in Hv. auto. }
+      destruct (somes (o' :: l0')) as [|s1 r1] eqn:Es'.
+      + exfalso. apply (proj2 (Hset s0)). now left.
+      + assert (E1 : s1 = s0) by (apply G, Hset; now left). subst s1.
+        replace (forallb (shape_eqb s0) r1) with true; [reflexivity|]. symmetry. apply forallb_forall.
+        intros v Hv. apply shape_eqb_eq. symmetry. apply G, Hset. now right.
+  Qed.
+
+  Lemma chain_sig_spec (sigs : list sig) sg : chain_sig sigs = Ok sg <->
+    sigs <> [] /\ (forall a, In a sigs -> fst a = fst sg) /\ merge_cond_shapes (map snd sigs) = Ok (snd sg).
+  Proof.
+    unfold chain_sig. split.
+    - destruct (check_shapes_match (map fst sigs)) eqn:Ec; [|discriminate].
+      destruct sigs as [|sg0 sigs']; [discriminate|].
+      destruct (merge_cond_shapes (map snd (sg0 :: sigs'))) as [cs|] eqn:Em; cbn [bind]; [|discriminate].
+      intros [= <-]. cbn [fst snd]. split; [discriminate|]. split; [|reflexivity].
+      cbn [check_shapes_match map] in Ec. rewrite forallb_forall in Ec. intros a Ha. symmetry. apply shape_eqb_eq, Ec.
+      change (fst sg0 :: map fst sigs') with (map fst (sg0 :: sigs')). now apply in_map.
+    - intros (Hne & Hs & Hm). destruct sigs as [|sg0 sigs']; [congruence|].
+      replace (check_shapes_match (map fst (sg0 :: sigs'))) with true.
+      + rewrite Hm. cbn [bind]. rewrite (Hs sg0) by now left. now destruct sg.
+      + symmetry. cbn [check_shapes_match map]. apply forallb_forall. intros s Hin.
+        change (fst sg0 :: map fst sigs') with (map fst (sg0 :: sigs')) in Hin. apply in_map_iff in Hin as (a & <- & Ha).
+        apply shape_eqb_eq. rewrite (Hs a Ha). apply Hs. now left.
+  Qed.
+
+  Lemma merge_somes_value (l : list (option shape)) cs v : merge_cond_shapes l = Ok cs -> In v (somes l) -> cs = Some v.
+  Proof.
+    unfold merge_cond_shapes. destruct l as [|o l0]; [discriminate|].
+    destruct (somes (o :: l0)) as [|s0 r]; [intros _ []|].
+    destruct (forallb (shape_eqb s0) r) eqn:Ef; [|discriminate]. intros [= <-] [->|Hv]; [reflexivity|].
+    rewrite forallb_forall in Ef. apply Ef, shape_eqb_eq in Hv. now subst.
+  Qed.
+  Lemma merge_somes_none (l : list (option shape)) : merge_cond_shapes l = Ok None -> somes l = [].
+  Proof.
+    unfold merge_cond_shapes. destruct l as [|o l0]; [discriminate|].
+    destruct (somes (o :: l0)) as [|s0 r]; [reflexivity|]. destruct (forallb (shape_eqb s0) r); discriminate.
+  Qed.
+
+  (* the signatures of one pass of merging *)
+  Lemma merge_pass_sigs (bs : list bij) : forall sigs, mapr sig_of bs = Ok sigs ->
+    exists sigs', mapr sig_of (merge_pass bs) = Ok sigs' /\ (sigs <> [] -> sigs' <> []) /\
+      (forall s, (forall a, In a sigs -> fst a = s) -> forall a, In a sigs' -> fst a = s) /\
+      (forall v, In v (somes (map snd sigs')) <-> In v (somes (map snd sigs))).
+  Proof.
+    induction bs as [|b bs IH]; intros sigs Hm.
+    - cbn in Hm. injection Hm as <-. exists []. cbn. repeat split; auto.
+    - change (mapr sig_of (b :: bs)) with (do sb <- sig_of b; do r <- mapr sig_of bs; Ok (sb :: r)) in Hm.
+      destruct (sig_of b) as [sb|] eqn:Eb; cbn [bind] in Hm; [|discriminate].
+      destruct (mapr sig_of bs) as [r|] eqn:Er; cbn [bind] in Hm; [|discriminate]. injection Hm as <-.
+      destruct (IH r eq_refl) as (r' & Hr' & Hne & Hsh & Hso).
+      cbn [merge_pass flat_map]. change (flat_map _ bs) with (merge_pass bs).
+      assert (Hdefault : mapr sig_of ([b] ++ merge_pass bs) = Ok (sb :: r') ->
+              exists sigs', mapr sig_of ([b] ++ merge_pass bs) = Ok sigs' /\ (sb :: r <> [] -> sigs' <> []) /\
+                (forall s, (forall a, In a (sb :: r) -> fst a = s) -> forall a, In a sigs' -> fst a = s) /\
+                (forall v, In v (somes (map snd sigs')) <-> In v (somes (map snd (sb :: r))))).
+      { intros H. exists (sb :: r'). split; [exact H|]. split; [discriminate|]. split.
+        - intros s Hs a [<-|Ha]; [apply Hs; now left | apply (Hsh s); [intros; apply Hs; now right | exact Ha]].
+        - intros v. cbn [map]. destruct (snd sb); cbn [somes]; [|apply Hso].
+          split; intros [->|H']; try (now left); right; now apply Hso. }
+      assert (Hone : mapr sig_of ([b] ++ merge_pass bs) = Ok (sb :: r')).
+      { rewrite mapr_app, Hr'. cbn [mapr bind]. rewrite Eb. reflexivity. }
+      destruct b; try exact (Hdefault Hone).
+      (* b = Chain bs0: spliced *)
+      cbn [sig_of] in Eb. destruct (mapr sig_of bs0) as [s0|] eqn:E0; cbn [bind] in Eb; [|discriminate].
+      apply chain_sig_spec in Eb as (Hn0 & Hs0 & Hm0).
+      exists (s0 ++ r'). rewrite mapr_app, E0, Hr'. cbn [bind]. split; [reflexivity|]. split.
+      + intros _. destruct s0; [congruence|discriminate].
+      + split.
+        * intros s Hs a Ha. apply in_app_or in Ha as [Ha|Ha].
+          -- rewrite (Hs0 a Ha). apply Hs. now left.
+          -- apply (Hsh s); [intros; apply Hs; now right | exact Ha].
+        * intros v. rewrite map_app, somes_app, in_app_iff, Hso. cbn [map]. 
+          assert (G : In v (somes (map snd s0)) <-> snd sb = Some v).
+          { split.
+            - intros Hv. now apply (merge_somes_value _ _ _ Hm0).
+            - intros E. rewrite E in Hm0. destruct (somes (map snd s0)) as [|v0 rest] eqn:Es.
+              + exfalso. unfold merge_cond_shapes in Hm0. destruct (map snd s0); [discriminate|]. rewrite Es in Hm0. discriminate.
+              + left. symmetry. assert (Hin : In v0 (somes (map snd s0))) by (rewrite Es; now left).
+                pose proof (merge_somes_value _ _ _ Hm0 Hin). congruence. }
+          rewrite G. destruct (snd sb) as [w|]; cbn [somes].
+          -- split; intros [H'|H']; [left; congruence | now right | left; congruence | now right].
+          -- split; intros H'; [destruct H' as [H'|H']; [discriminate | exact H'] | now right].
+  Qed.
+
+  Theorem merge_pass_sig (bs : list bij) sg : sig_of (Chain bs) = Ok sg -> sig_of (Chain (merge_pass bs)) = Ok sg.
+  Proof.
+    cbn [sig_of]. destruct (mapr sig_of bs) as [sigs|] eqn:Em; cbn [bind]; [|discriminate]. intros Hc.
+    apply chain_sig_spec in Hc as (Hne & Hs & Hm).
+    destruct (merge_pass_sigs bs sigs Em) as (sigs' & Hm' & Hne' & Hsh & Hso). rewrite Hm'. cbn [bind].
+    apply chain_sig_spec. split; [auto|]. split; [apply (Hsh (fst sg)); exact Hs|].
+    apply (merge_set (map snd sigs)); auto. specialize (Hne' Hne). destruct sigs'; [congruence|discriminate].
+  Qed.
+  Theorem merge_chains_sig (bs : list bij) sg : sig_of (Chain bs) = Ok sg -> sig_of (merge_chains bs) = Ok sg.
+  Proof.
+    unfold merge_chains. generalize (fold_right Nat.max 0 (map chain_depth bs)) as fuel. intros fuel. revert bs.
+    induction fuel as [|f IH]; intros bs H; cbn [merge_loop]; destruct (existsb is_chain bs); auto.
+    apply IH, merge_pass_sig, H.
+  Qed.
+
+  (* merge_chains never changes the function: every method, every input (malformed ones are rejected alike) *)
+  Theorem merge_chains_run :
+    (forall a, n_add O a (zero O) = a) ->
+    (forall a1 a2 a3 : A, n_add O a1 (n_add O a2 a3) = n_add O (n_add O a1 a2) a3) ->
+    forall (bs : list bij) sg d (x : tens) c, sig_of (Chain bs) = Ok sg ->
+    run O (merge_chains bs) d x c = run O (Chain bs) d x c.
+  Proof.
+    intros H0 Ha bs sg d x c Hs. pose proof (merge_chains_sig bs sg Hs) as Hs'.
+    rewrite (run_entry O (merge_chains bs)), (run_entry O (Chain bs)), Hs, Hs'. cbn [bind].
+    destruct (check sg x c) as [[]|e] eqn:Ec; cbn [bind]; [|reflexivity].
+    apply check_inv in Ec as [Hx Hc].
+    rewrite (run_is_den O _ d x c sg Hs' Hx Hc), (run_is_den O _ d x c sg Hs Hx Hc).
+    now rewrite (merge_chains_same O H0 Ha).
+  Qed.
+End MergeSig.
